@@ -130,3 +130,37 @@ Lemma pow_step_xI p : (Zpos p~1 >? 1) = true /\ (ix_and (Zpos p~1) 1 =? 1) = tru
 Proof. repeat split. Qed.
 Lemma pow_step_xO p : (Zpos p~0 >? 1) = true /\ (ix_and (Zpos p~0) 1 =? 1) = false /\ ix_shr (Zpos p~0) 1 = Zpos p.
 Proof. repeat split. Qed.
+
+(* ---------- bit addressing: the digit width is a power of two ---------- *)
+(* (the same two facts as in LoopsTieC05.v, restated here so that the C06 / C08 ties do not depend on the C05 tie file) *)
+Lemma tz32_pow2 m : u_trailing_zeros 32 (2 ^ Z.of_nat m) = Z.of_nat m.
+Proof.
+  induction m as [|m IH]; [reflexivity|].
+  rewrite Nat2Z.inj_succ, Z.pow_succ_r by lia.
+  assert (Hp : 0 < 2 ^ Z.of_nat m) by (apply Z.pow_pos_nonneg; lia).
+  destruct (2 ^ Z.of_nat m) as [|p|p] eqn:E; try lia.
+  change (2 * Z.pos p) with (Z.pos p~0). cbn [u_trailing_zeros tz_pos] in *. rewrite IH. lia.
+Qed.
+
+Lemma bit_addr_split w lg rhs : 0 <= lg -> w = 2 ^ lg -> 0 <= rhs ->
+  ix_shr rhs (digit_BIT_SHIFT w) = rhs / w /\ ix_and rhs (digit_BITS_MINUS_1 w) = rhs mod w.
+Proof.
+  intros Hlg -> Hr. unfold ix_shr, ix_and, digit_BIT_SHIFT, digit_BITS_MINUS_1.
+  rewrite <- (Z2Nat.id lg) at 1 by lia. rewrite tz32_pow2, Z2Nat.id by lia.
+  split; [apply Z.shiftr_div_pow2; lia|].
+  replace (2 ^ lg - 1) with (Z.ones lg) by (rewrite Z.ones_equiv; lia). apply Z.land_ones; lia.
+Qed.
+
+Lemma arr_get_cases a i : 0 <= i ->
+  arr_get a i = if (Z.to_nat i <? length a)%nat then Done (nth (Z.to_nat i) a 0) else Panicked.
+Proof.
+  intros Hi. unfold arr_get, in_bounds. destruct (Z.leb_spec 0 i); [|lia].
+  destruct (Z.ltb_spec i (Z.of_nat (length a))), (Nat.ltb_spec (Z.to_nat i) (length a)); try reflexivity; lia.
+Qed.
+
+Lemma arr_set_cases a i v : 0 <= i ->
+  arr_set a i v = if (Z.to_nat i <? length a)%nat then Done (list_set a (Z.to_nat i) v) else Panicked.
+Proof.
+  intros Hi. unfold arr_set, in_bounds. destruct (Z.leb_spec 0 i); [|lia].
+  destruct (Z.ltb_spec i (Z.of_nat (length a))), (Nat.ltb_spec (Z.to_nat i) (length a)); try reflexivity; lia.
+Qed.
